@@ -134,7 +134,11 @@ def items(tier):
         n += 1
 
     for st in universe.K0:
-        add("style_only", st, [], seeds=(corpus.seed_ids(("fix", "cls")) if tier != "quick" else corpus.seed_ids(("fix",))[::8]), rc=(rules if tier != "quick" else rules[::12]))
+        allseeds = corpus.seed_ids(("fix", "cls")) if tier != "quick" else corpus.seed_ids(("fix",))[::8]
+        allrc = rules if tier != "quick" else rules[::12]
+        n_parts = max(1, len(allseeds) // 30)
+        for k in range(n_parts):  # split so that the work is spread over the workers; every part repeats the round trip itself
+            add("style_only", st, [], seeds=allseeds[k::n_parts], rc=allrc[k::n_parts])
     # one representative rule per option name, every documented value
     seen = set()
     for rid in rules:
